@@ -216,6 +216,18 @@ impl<'a> AtRuleDest<'a> {
             body: Vec::new(),
         }
     }
+    /// Move what the copied style rule holds so far into the body, so
+    /// that a nested item is emitted after it and later declarations
+    /// and comments after the nested item.
+    fn commit_rule(&mut self) {
+        if let Some(rule) = &mut self.rule
+            && !rule.body.is_empty()
+        {
+            let next = Rule::new(rule.selectors.clone());
+            let done = std::mem::replace(rule, next);
+            self.body.push(done.into());
+        }
+    }
 }
 
 impl Drop for AtRuleDest<'_> {
@@ -224,7 +236,12 @@ impl Drop for AtRuleDest<'_> {
         let name = std::mem::take(&mut self.name);
         let args = std::mem::replace(&mut self.args, Value::Null);
         if let Some(rule) = self.rule.take() {
-            body.insert(0, rule.into());
+            // What remains of the copied style rule comes after the
+            // items that were pushed before it (an empty one is only
+            // kept when there is nothing else, as before).
+            if !rule.body.is_empty() || body.is_empty() {
+                body.push(rule.into());
+            }
         }
         let result = AtRule::new(name, args, Some(body));
         if let Err(err) = self.parent.push_item(result.into()) {
@@ -285,6 +302,9 @@ impl CssDestination for AtRuleDest<'_> {
     }
 
     fn push_item(&mut self, item: Item) -> Result {
+        if !matches!(item, Item::Separator) {
+            self.commit_rule();
+        }
         self.body.push(match item {
             Item::Comment(c) => c.into(),
             Item::Import(i) => i.into(),
@@ -337,6 +357,16 @@ impl<'a> AtMediaDest<'a> {
             body: Vec::new(),
         }
     }
+    /// See [`AtRuleDest::commit_rule`].
+    fn commit_rule(&mut self) {
+        if let Some(rule) = &mut self.rule
+            && !rule.body.is_empty()
+        {
+            let next = Rule::new(rule.selectors.clone());
+            let done = std::mem::replace(rule, next);
+            self.body.push(done.into());
+        }
+    }
 }
 
 impl Drop for AtMediaDest<'_> {
@@ -347,7 +377,7 @@ impl Drop for AtMediaDest<'_> {
         if let Some(rule) = self.rule.take()
             && !rule.body.is_empty()
         {
-            body.insert(0, rule.into());
+            body.push(rule.into());
         }
         let result = MediaRule::new(args, body);
         if let Err(err) = self.parent.push_item(result.into()) {
@@ -410,6 +440,9 @@ impl CssDestination for AtMediaDest<'_> {
     }
 
     fn push_item(&mut self, item: Item) -> Result {
+        if !matches!(item, Item::Separator) {
+            self.commit_rule();
+        }
         self.body.push(match item {
             Item::Comment(c) => c.into(),
             Item::Import(i) => i.into(),
